@@ -39,7 +39,8 @@ C14_complete_mtag_units C14_missing_positions_reported C14_unit_pair_atoms C14_u
 C14_complete_property C14_catalogue_distinct C14_catalogue_complete
 C14_complete_NoID_counterexample C14_complete_NoID_partial C14_emits_entity C14_emits_dims
 C14_emits_feature_property C14_emits_tags C14_emits_array C14_traversal_order C14_shape_tag C14_shape_multi_tag
-C14_shape_array C14_shape_entities C14_shape_no_other_sites C14_shape_helpers
+C14_shape_array C14_shape_entities C14_shape_no_other_sites C14_shape_helpers C14_only_emitted C14_never_reported
+C14_complete_NoDataType C14_complete_feature_entries
 """.split()]
 ASSUMPTIONS = [
     "the validator reads the file only through the public API; the model works on a description of what those reads "
@@ -1381,10 +1382,10 @@ def run_case(ctx, recipe):
 
 def correspondence(ctx):
     corpus = [("corpus", c[1], []) for c in core.load_corpus(PROP) if c and c[0] == "recipe"]
-    cases = corpus + gen_cases(ctx, "all", ctx.budget(14, 80), ctx.budget(10, 30), ctx.budget(12, 30),
+    cases = corpus + gen_cases(ctx, "all", ctx.budget(14, 80), ctx.budget(10, 24), ctx.budget(12, 30),
                                ctx.budget(12, 40), exhaustive_bases=ctx.budget(0, 2), exhaustive_pairs=300,
-                               n_multiref=ctx.budget(24, 150), n_multi=ctx.budget(16, 100),
-                               n_sweep=ctx.budget(3, 20), sweep_size=ctx.budget(24, 40))
+                               n_multiref=ctx.budget(24, 100), n_multi=ctx.budget(16, 60),
+                               n_sweep=ctx.budget(3, 12), sweep_size=ctx.budget(24, 40))
     descs, impls = [], []
     dist = {"labels": {}, "injections": {}, "impl_errors": {}, "messages": {}}
     for label, recipe, injs in cases:
@@ -1566,10 +1567,10 @@ def oracle(ctx, broken, hints):
                            n_multiref=ctx.budget(80, 400), n_multi=ctx.budget(40, 200),
                            n_sweep=ctx.budget(10, 40), sweep_size=ctx.budget(30, 40))
     else:
-        cases += gen_cases(ctx, "property", ctx.budget(6, 30), ctx.budget(6, 20), ctx.budget(8, 25),
+        cases += gen_cases(ctx, "property", ctx.budget(6, 30), ctx.budget(6, 16), ctx.budget(8, 25),
                            ctx.budget(8, 30), exhaustive_bases=ctx.budget(0, 1), exhaustive_pairs=300,
-                           n_multiref=ctx.budget(24, 150), n_multi=ctx.budget(12, 80),
-                           n_sweep=ctx.budget(3, 20), sweep_size=ctx.budget(24, 40), each_kind=not ctx.quick())
+                           n_multiref=ctx.budget(24, 100), n_multi=ctx.budget(12, 60),
+                           n_sweep=ctx.budget(3, 12), sweep_size=ctx.budget(24, 40), each_kind=not ctx.quick())
     failures = []
     seen = set()
     kinds = {}
